@@ -280,13 +280,37 @@ func runBestEffort(c *mon.Case, sp spec) {
 		return
 	}
 	tc := w.timedOp()
-	if !c.AwaitOrViolate("best-effort-blocked/"+w.id(), fmt.Sprintf("best-effort %s (peer %s, queue %s, q=%d, send deadline %v)", w.id(), sp.Peer, sp.State, sp.Q, D), tc.call.Done, mon.AwaitOpts{MaxTimer: D}) {
+	// "never blocks": the calling goroutine must never be seen parked on a channel, select or
+	// condition inside the send (waiting for a lock is not blocking on flow control).  One
+	// observation of such a state is a refutation that does not depend on how long it lasted.
+	waitObs, waitAt := 0, ""
+	watched := func() bool {
+		if tc.call.Done() {
+			return true
+		}
+		for _, g := range mon.Dump() {
+			if g.ID != tc.call.GID || !g.HasFrame("Send") {
+				continue
+			}
+			switch g.State {
+			case "select", "chan send", "chan receive", "sync.Cond.Wait", "sleep":
+				waitObs++
+				waitAt = g.Short()
+			}
+		}
+		return false
+	}
+	if !c.AwaitOrViolate("best-effort-blocked/"+w.id(), fmt.Sprintf("best-effort %s (peer %s, queue %s, q=%d, send deadline %v)", w.id(), sp.Peer, sp.State, sp.Q, D), watched, mon.AwaitOpts{MaxTimer: D}) {
 		w.outcome = "no-return"
 		return
 	}
 	err, el := tc.err(), tc.elapsed()
 	c.Count("timed_calls", 1)
+	c.Count("best_effort_waiting_observations", waitObs)
 	switch {
+	case waitObs > 0:
+		w.outcome = "waited"
+		c.Violate("best-effort/waited/"+w.id(), "best-effort %s (peer %s, queue %s, q=%d, send deadline %v) was seen waiting inside the send %d time(s) (%s); it returned %v after %v — a best-effort send queues or drops, it never waits", w.id(), sp.Peer, sp.State, sp.Q, D, waitObs, waitAt, err, el)
 	case err == nil:
 		w.outcome = "ok"
 		c.Count("best_effort_sends_returned", 1)
